@@ -89,7 +89,7 @@ def used_exact(case):
                 yield from pairs(s_model[2], s_obj.statements)
 
     for s_model, s_obj in pairs(prog["body"], c.body.statements):
-        if any(x[0] == "g" and x[1] in ("prepare_all", "measure_all") for x in walk([s_model])):
+        if any(x[0] == "g" and (x[1] in ("prepare_all", "measure_all") or x[1].startswith("BSY")) for x in walk([s_model])):
             continue
         # macros containing busy gates cannot be analysed stand-alone either
         if any(x[0] == "g" and x[1] in mn and _macro_busy(prog, x[1]) for x in walk([s_model])):
@@ -102,9 +102,56 @@ def used_exact(case):
         if gs != w:
             raise Violation("statement-used-set", f"statement {s_model}: got {sorted(gs)}, reference {sorted(w)}\n--- program:\n{text}")
         nstm += 1
+    # the analysis of a macro BODY under explicit bindings of its parameters (the documented
+    # `context` argument): exactly the qubits the body acts on with those arguments
+    nctx = 0
+    kinds_of = dict(gates.KINDS)
+    kinds_of.update(gates.REG_KINDS)
+    for m in prog["macros"]:
+        if _macro_busy(prog, m["name"]) or any(x[0] == "g" and x[1].startswith("BSY") for x in walk([m["body"]])):
+            continue
+        roles = _param_roles(prog, m, kinds_of)
+        if roles is None:
+            continue
+        argvals, ctxobj, free = [], {}, list(range(n))
+        ok = True
+        for p_ in m["params"]:
+            role = roles.get(p_, "num")
+            if role == "qubit":
+                if not free:
+                    ok = False
+                    break
+                k = free.pop((len(p_) + nctx) % len(free))
+                argvals.append(("q", k))
+                ctxobj[p_] = c.registers[regname][k]
+            elif role == "reg":
+                argvals.append(("reg", tuple(range(n))))
+                ctxobj[p_] = c.registers[regname]
+            elif role == "idx":
+                argvals.append(("num", 0))
+                ctxobj[p_] = 0
+            else:
+                argvals.append(("num", 1))
+                ctxobj[p_] = 1
+        if not ok:
+            continue
+        try:
+            tree_m = ref.macro_meaning(m["name"], argvals)
+        except Invalid:
+            continue
+        if _repeats_qubit(tree_m):
+            continue
+        w = refexec.used(tree_m, n, sub_busy=False)
+        st_, g = guard(get_used_qubit_indices, c.macros[m["name"]].body, context=dict(ctxobj), what="get_used_qubit_indices(macro body, context)")
+        if st_ == "err":
+            raise Violation("rejected-valid-statement", f"body of macro {m['name']} with context {argvals}: {g}\n--- program:\n{text}", where="context")
+        gs = set(dict(g).get(regname, set()))
+        if gs != w or [k_ for k_, v_ in dict(g).items() if k_ != regname and v_]:
+            raise Violation("statement-used-set", f"body of macro {m['name']} with context {argvals}: got {dict(g)}, reference {sorted(w)}\n--- program:\n{text}", where="context")
+        nctx += 1
     depth2 = any(m[1] != regname for m in prog["maps"])
     param_q = any(a[0] in ("id", "ix") and (a[1] in m["params"] or (a[0] == "ix" and a[2] in m["params"])) for m in prog["macros"] for s in walk([m["body"]]) if s[0] == "g" for a in s[2])
-    classes = ["alias-of-alias"] * depth2 + ["param-carries-qubit"] * param_q + ["statements-checked:%d" % min(nstm, 3)]
+    classes = ["alias-of-alias"] * depth2 + ["param-carries-qubit"] * param_q + ["statements-checked:%d" % min(nstm, 3)] + ["macro-bodies-with-context:%d" % min(nctx, 3)]
     if any(s_[0] == "g" and s_[1].replace("I_", "") in gates.REG_KINDS for s_ in walk(prog["body"])):
         classes.append("register-argument")
     if isinstance(prog["reg"][1], str):
@@ -112,10 +159,65 @@ def used_exact(case):
     return {"nontrivial": depth2 or param_q, "classes": classes, "key": text, "sample": {"text": text, "used": sorted(want)}}
 
 
+def _repeats_qubit(node):
+    if node[0] == "g":
+        qs = [v[1] for v in node[2] if v[0] == "q"] + [x for v in node[2] if v[0] == "reg" for x in v[1]]
+        return len(qs) != len(set(qs))
+    if node[0] == "loop":
+        return _repeats_qubit(node[2])
+    return any(_repeats_qubit(k) for k in (node[2] if node[0] == "sub" else node[1]))
+
+
+def _param_roles(prog, m, kinds_of, depth=0):
+    """How a macro uses its parameters (qubit / reg / idx / count / num); None if unclear."""
+    roles = {}
+    mnames = {x["name"]: x for x in prog["macros"]}
+
+    def put(p_, r_):
+        if roles.get(p_, r_) != r_:
+            raise KeyError(p_)
+        roles[p_] = r_
+
+    try:
+        for s in walk([m["body"]]):
+            if s[0] == "g":
+                name = s[1][2:] if s[1].startswith("I_") and s[1] not in kinds_of else s[1]
+                if s[1] in mnames:
+                    if depth > 4:
+                        return None
+                    inner = _param_roles(prog, mnames[s[1]], kinds_of, depth + 1)
+                    if inner is None:
+                        return None
+                    for a, ip in zip(s[2], mnames[s[1]]["params"]):
+                        if a[0] == "id" and a[1] in m["params"]:
+                            put(a[1], inner.get(ip, "num"))
+                        elif a[0] == "ix":
+                            if a[1] in m["params"]:
+                                put(a[1], "reg")
+                            if isinstance(a[2], str) and a[2] in m["params"]:
+                                put(a[2], "idx")
+                    continue
+                ks = kinds_of.get(name)
+                for j, a in enumerate(s[2]):
+                    if a[0] == "id" and a[1] in m["params"]:
+                        k = ks[j] if ks and j < len(ks) else "f"
+                        put(a[1], {"q": "qubit", "r": "reg"}.get(k, "num"))
+                    elif a[0] == "ix":
+                        if a[1] in m["params"]:
+                            put(a[1], "reg")
+                        if isinstance(a[2], str) and a[2] in m["params"]:
+                            put(a[2], "idx")
+            elif s[0] in ("loop", "sub") and isinstance(s[1], str) and s[1] in m["params"]:
+                put(s[1], "count")
+    except KeyError:
+        return None
+    return roles
+
+
 def _macro_busy(prog, name, seen=None):
     mn = {m["name"]: m for m in prog["macros"]}
     for x in walk([mn[name]["body"]]):
-        if x[0] == "g" and x[1] in ("prepare_all", "measure_all"):
+        if x[0] == "g" and (x[1] in ("prepare_all", "measure_all") or x[1].startswith("BSY")):
             return True
         if x[0] == "g" and x[1] in mn and x[1] != name and _macro_busy(prog, x[1]):
             return True
@@ -127,6 +229,7 @@ def used_cases():
     for name, kinds in gates.REG_KINDS.items():
         kt[name] = list(kinds)
         kt["I_" + name] = list(kinds)
+    kt["BSY1"] = ["q"]
     cfg = gen.Cfg(natives=kt, reg_args=False, usepulses=False, general_numbers=False, max_depth=4, macro_bias=1)
 
     def forwarding(ch):
@@ -191,6 +294,27 @@ def used_cases():
             c = gen_emul.make_emulable(ch, max_reg=6, with_env=False)
             return {"prog": c["prog"], "gate_seed": c["gate_seed"]}
         prog, _b = gen.make_prog(ch, cfg)
+        # whole-register arguments for every kind of alias the header has (chains of strided
+        # slices in particular): `RG a` uses every qubit of a
+        try:
+            r = Ref(prog)
+            n_ = r.reg_size()
+            taken = {x[0] for x in prog["lets"]} | {x[0] for x in prog["maps"]} | {x["name"] for x in prog["macros"]} | {prog["reg"][0]}
+            if n_ >= 4 and ch.int(0, 2) == 0 and not ({"zev", "zmid", "zw"} & taken):
+                # a slice of a STRIDED alias (and a whole alias of that): strides compose
+                st = ch.int(0, 1)
+                ev = list(range(st, n_, 2))
+                a_ = ch.int(0, len(ev) - 2)
+                b_ = ch.int(a_ + 2, len(ev)) if a_ + 2 <= len(ev) else len(ev)
+                prog["maps"] += [["zev", prog["reg"][0], ["s", st, n_, 2]], ["zmid", "zev", ["s", a_, b_, 1]], ["zw", "zmid", None]]
+                r = Ref(prog)
+            for m in prog["maps"]:
+                if r.elems(m[0])[0] == "reg" and ch.bool():
+                    g = ch.pick(["RG", "I_RG", "RQ", "RG"])
+                    args = [["id", m[0]]] if g != "RQ" else [["ix", prog["reg"][0], 0], ["id", m[0]]]
+                    prog["body"].append(["g", g, args])
+        except Invalid:
+            pass
         return {"prog": prog, "gate_seed": 0}
 
     return gen.cases(mk)
